@@ -47,6 +47,7 @@ pub const STMT_MENU: &[&str] = &[
     "x = fn a -> x end", "x(fn a -> a(a) end)", "z := x", "z := (x, y)", "x = z", "ret x", "ret (x, x)", "if x do y = x end", "loop x do break end",
     "case x do A a -> y = a end else end end", "x = P { a: x }", "x = P { a: y }.a", "x = E.A x", "x = E.A y", "x <=> y", "x = x / y", "x = (x, y) * (y, x)",
     "x += y", "x += (x, 1)", "x -> y()", "y' x",
+    "x == (y,)", "y[0] == z", "z == ((x,),)", "x == z", "z := y", "z = (x,)", "y == [z]", "z.f == x", "x = z.f", "z == fn a -> x end",
 ];
 
 fn stmt_program(seq: &[&str]) -> String {
@@ -58,6 +59,37 @@ fn stmt_program(seq: &[&str]) -> String {
     }
     s.push_str("end\nstart :: fn do\nend\n");
     s
+}
+
+fn bracket_inputs() -> Vec<(String, String)> {
+    // every bracket construct x contents x a line break in each gap, in four statement positions
+    let constructs: &[(&str, &str, &str)] = &[("tuple", "(", ")"), ("list", "[", "]"), ("call", "id(", ")"), ("blob", "P {", "}"), ("grouping", "(", ")"), ("index", "(1, 2)[", "]"), ("prime-in-parens", "(id' ", ")"), ("arrow-call", "(1 -> two(", "))")];
+    let contents: &[&[&str]] = &[&[], &["1"], &["1", ","], &["1", ",", "2"], &["1", ",", "2", ","], &[","], &["a", ":", "1"], &["a", ":", "1", ","]];
+    let positions: &[(&str, &str, &str)] = &[("definition", "    x := ", "\n"), ("ret", "    ret ", "\n"), ("statement", "    ", "\n"), ("argument", "    id(", ")\n"), ("operand", "    y := 1 + ", "\n")];
+    let hdr = "P :: blob { a: int }\nid :: fn q -> q end\ntwo :: fn a, b -> a end\n";
+    let mut v = Vec::new();
+    for (cn, open, close) in constructs {
+        for cont in contents {
+            let mut toks: Vec<&str> = vec![open];
+            toks.extend(cont.iter());
+            toks.push(close);
+            // a line break (or none) in each gap: bit mask over gaps
+            let gaps = toks.len() - 1;
+            for mask in 0..(1u32 << gaps) {
+                let mut text = String::new();
+                for (i, t) in toks.iter().enumerate() {
+                    text.push_str(t);
+                    if i < gaps {
+                        text.push_str(if (mask >> i) & 1 == 1 { "\n" } else { " " });
+                    }
+                }
+                for (pn, before, after) in positions {
+                    v.push((format!("brackets {} {:?} breaks={:b} as {}", cn, cont, mask, pn), format!("{}start :: fn do\n{}{}{}end\n", hdr, before, text, after)));
+                }
+            }
+        }
+    }
+    v
 }
 
 fn nest_inputs() -> Vec<(String, String)> {
@@ -275,9 +307,10 @@ impl Space {
         parts.push(("projects".to_string(), projects.len() as u64));
         let ladders = ladder_inputs(64);
         parts.push(("ladders".to_string(), ladders.len() as u64));
-        let nests = nest_inputs();
+        let mut nests = nest_inputs();
+        nests.extend(bracket_inputs());
         parts.push(("nests".to_string(), nests.len() as u64));
-        let stmt_len = if thorough { 3 } else { 2 };
+        let stmt_len = if thorough { 4 } else { 2 };
         let nm = STMT_MENU.len() as u64;
         parts.push(("stmts".to_string(), (1..=stmt_len as u32).map(|l| nm.pow(l)).sum()));
         Space { parts, seeds, seed_edits, projects, ladders, nests, stmt_len, thorough }
